@@ -25,11 +25,17 @@ TECHNIQUE = ("complete small-scope input enumeration on the real code against an
              "enumerated two-locus Markov chain for the selfing generations) + exact progeny distribution of the real "
              "mating protocols under all weighted generator answers")
 RULE = ("one evaluation = one matrix build (class, entry point, parent population, chromosome layout + positions, "
-        "nself, mem, marker effects, counts) whose EVERY parent index tuple (with repeats) is compared with the oracle; "
-        "L1 all inbred populations {0,1}^(n x m) (all phased genotypes for the dihybrid scheme) x layouts x nself "
-        "{0,1,2,5,inf} with mem / effects / entry point rotating; L2 all effect vectors over a 4-letter alphabet "
-        "(t=1) and all pairs (t=2); L3 all chunk sizes x chromosome lengths 1..4; L4 every weighted answer vector "
-        "of the real DH mating protocols; L5 all taxon permutations; L6 factories and usefulness-criterion problems; "
+        "nself, mem, marker effects, counts) whose EVERY parent index tuple (with repeats) is compared with the oracle, "
+        "or one cross run through the real mating protocol under all weighted generator answers (L4), or one UC problem "
+        "(L6). L1: every inbred population {0,1}^(n x m) (every phased population for the dihybrid scheme) of the "
+        "population spaces in bounds.L1_population_spaces x 4-5 layouts per m (linked, coincident r=0, far r=1/2, "
+        "unlinked / single-marker chromosomes) x nself {0,1,2,5,inf}, with mem, effect matrix, entry point and "
+        "nmating/nprogeny rotating deterministically; L2: all effect vectors over a 4-letter alphabet (t=1) and vector "
+        "pairs (t=2; all 4096 pairs for 2-way/dihybrid in the thorough tier); L3: mem in {1,2,3,4,5,None,1024,default} x "
+        "chromosome lengths 1..4, each build also compared with the mem=None build; L4: every weighted answer vector "
+        "of TwoWayDHCross/ThreeWayDHCross/FourWayDHCross.mate for selected crosses (m=2, nself<=2; m=3 for the cheap "
+        "ones); L5: all taxon permutations; L6: 5 factories x both entry points, from_gmod with default arguments for "
+        "all 16 classes, 4 UC problem classes x 4 schemes x unique_parents x {from_pgmat_gpmod, ..._xmap}. "
         "non-trivial = a build with at least one parent tuple whose expected variance is non-zero and (genetic classes) "
         "changed by linkage (genetic != genic); distinct by digest of the configuration")
 ASSUME = ["Haldane (no interference) meiosis; genetic positions in Morgans; unlinked chromosomes r = 1/2",
@@ -937,7 +943,8 @@ def run_shard(spec, ctx):
     ctx.bounds.update({"nself": list(NSELF_CODES), "mem": list(MEM_CODES) + ["default", 4, 5],
                        "taxa_max": 4, "markers_max": 4, "chromosomes_max": 3, "traits_max": 2,
                        "effect_alphabet": list(alphabet(seed)), "map_distances_morgan": list(dists(seed)) + [0.0, FAR],
-                       "tolerance": "rel 1e-9 / abs 1e-12"})
+                       "tolerance": "rel 1e-9 / abs 1e-12",
+                       "L1_population_spaces": {k: ["n=%d m=%d %s" % v for v in vs] for k, vs in l1_spaces(ctx.tier).items()}})
     if layer == "L1":
         _, scheme, n, m, mode, li, ns, b, nb = spec
         layout = layouts(m, seed)[li]
